@@ -21,7 +21,8 @@ RULE = (
     "bounded-exhaustive: 1 element x each kind x {unsuffixed, en, fr} subsets x all column orders x 4 default-language "
     "configurations x 2 delimiters on survey and choices; random: <=3 elements (questions, selects, a group) x 7 kinds x "
     "<=3 languages with distinct marker texts, alias spellings, 5 delimiter styles, shuffled column order, default_language "
-    "setting/argument; distinct by canonical hash; non-trivial = accepted and at least one translation"
+    "setting/argument; the same random forms with rows nested in repeats/groups at depth <=4 (own translated labels) and a "
+    "directed family of depth 1..6; distinct by canonical hash; non-trivial = accepted and at least one translation"
 )
 
 
@@ -249,6 +250,15 @@ def explore(ctx, factor, bs):
     rng.shuffle(fam)
     for form in fam[: ctx.pick(150, len(fam)) * (1 if factor == 1 else 2)]:
         one_case(ctx, L.render(form), tag="unlabelled:")
+    # repeats: the same kind of forms with their rows nested in repeats (and converted groups) at depth 1..4
+    for case in L.deep_repeat_family():
+        one_case(ctx, case, tag="deeprep:")
+        maybe_xlsx(ctx, case, 0.25)
+    for i in range(ctx.pick(350, 12000) * factor):
+        case = L.nest_repeats(rng, L.render(L.random_form(rng, big=not ctx.quick())))
+        one_case(ctx, case, tag="rep:")
+        ctx.count("rep:depth:%d" % max([p.count("/") - 2 for _, p, _, _ in L.survey_layout(case)] or [0]))
+        maybe_xlsx(ctx, case, ctx.pick(0.06, 0.03))
     n = ctx.pick(1500, 40000) * factor
     for i in range(n):
         form = L.random_form(rng, big=not ctx.quick())
